@@ -32,3 +32,24 @@ package ingress
 //@   props C15
 //@   safe x509.Certificate
 //@ end
+
+// ---------------------------------------------------------------------------
+// C06 — ingresses are processed in an order that is a function of the objects
+// alone: creation time, then namespace/name; never the order the API or the
+// event batch delivered them
+
+//@ spec func ingKey(i *networking.Ingress) string = i.Namespace + "/" + i.Name
+//@ spec func ingLess(a *networking.Ingress, b *networking.Ingress) bool = (a.CreationTimestamp != b.CreationTimestamp && instant(a.CreationTimestamp.Time) < instant(b.CreationTimestamp.Time)) || (a.CreationTimestamp == b.CreationTimestamp && ingKey(a) < ingKey(b))
+
+// after sortIngress no later element precedes an earlier one in the
+// (creation time, namespace/name) order; the slice header and everything but
+// the slice's own backing array are untouched.  Two ingresses of a cluster
+// never share namespace/name, so equal creation times are ordered by a key
+// that differs: the result does not depend on the input order.
+//@ func sortIngress
+//@   props C06
+//@   requires nonnil: forall a int :: 0 <= a && a < len(ingress) ==> ingress[a] != nil
+//@   modifies ingress[*]
+//@   ensures sorted: forall a int, b int :: 0 <= a && a < b && b < len(ingress) ==> !ingLess(ingress[b], ingress[a])
+//@   ensures keeps:  forall a int :: 0 <= a && a < len(ingress) ==> ingress[a] != nil
+//@ end
